@@ -388,7 +388,28 @@ def cases(draw):
     return case
 
 
+def matrix_cells():
+    """Every language x every planted family x every whole-file edit, one edit per case: the drawn cases above combine
+    edits freely, this matrix guarantees that no (family, whole-file edit) pair is left to chance."""
+    cells = []
+    for lang in LANGS:
+        for fam in sorted(set(families(lang))):
+            for e in ([{"k": "reindent", "f": 0, "to": t} for t in (["2", "8"] + (["tab"] if lang != "py" else []))]
+                      + [{"k": "eol", "f": 0}, {"k": "bom", "f": 0}]):
+                part = {"fam": fam, "var": 0}
+                if fam == "srploc":
+                    part["d"] = 0
+                cmd = FAM_CMD.get(fam)
+                cells.append({"kind": "single", "lang": lang, "parts": [part, {"fam": "filler", "var": 0}], "gap": 1, "layout": {},
+                              "cmds": [c for c in (cmd, "nesting", "magic-numbers") if c][:2] if cmd != "nesting" else ["nesting", "magic-numbers"], "edits": [e]})
+    return cells
+
+
 def run(ctx):
+    cells = matrix_cells()
+    mine = ctx.my_cells(cells)
+    done = ctx.each(mine, check)
+    ctx.stats.extra.setdefault("matrix", {})["language x planted family x whole-file edit (re-indent to each unit, CRLF, BOM)"] = {"cells": len(mine), "done": done}
     ctx.explore(cases(), check, max_examples=ctx.n(70, 1500))
 
 
